@@ -322,6 +322,13 @@ func runC10(r *core.Run) {
 			}
 		}
 	}
+	// result-independence histories (H1/H2) of the size and type accessors of parsed values
+	independencePass(r, "C10", func(family, call string) bool {
+		if !containsAny(family, "KeysAndCert", "Destination", "RouterIdentity", "KeyCertificate", "Certificate", "LeaseSet", "OfflineSignature", "Signature") {
+			return false
+		}
+		return call == "" || containsAny(call, "Size", "KeyType", "Len", "Type(")
+	})
 	r.Sample(map[string]any{"lookup": "signature.SignatureSize", "code": 2, "spec": "96"})
 	r.Sample(map[string]any{"lookup": "offline_signature.SigningPublicKeySize", "code": 9, "spec": "unknown"})
 	r.Sample(map[string]any{"layout": "sig 1 (P-256, 64) / crypto 4 (X25519, 32)", "crypto": "[0,32)", "padding": "[32,320)", "signing": "[320,384)"})
